@@ -385,7 +385,7 @@ class _Agg:
     def __init__(self):
         self.stats = collections.Counter()
         self.fails: dict = {}
-        self.nontrivial = 0
+        self.nontrivial: set = set()     # 64-bit hashes of the distinct non-trivial (version, text) pairs
         self.samples: list = []
 
     def judge(self, version: str, text: str, origin: dict) -> str:
@@ -416,9 +416,11 @@ class _Agg:
                     if len(text) < len(ent[2]['text']):
                         ent[2] = case
         if parsed or (pcode and 'XPST0003' not in pcode):
-            self.nontrivial += 1
+            self.nontrivial.add(hash((version, text)))
         if parsed and len(self.samples) < 2:
-            self.samples.append(dict(version=version, text=text, origin=origin, outcomes=[[o[0], o[1], o[2][0] if o[2] else None] for o in obs]))
+            ev = collections.Counter(o[2][0] for o in obs[1:] if o[2])
+            self.samples.append(dict(version=version, text=text, origin=origin, parse='value',
+                                     evaluations=dict(ev)))
         return 'value' if parsed else (pcode or '?')
 
     def result(self):
@@ -568,9 +570,11 @@ def history_worker(job):
         stats['histories'] += 1
         if record:
             traces.append(events)
-        if len(samples) < 1 and len(h) == 3 and h[0][2] == 'err':
-            samples.append(dict(version=version, history=[[p, sc, source_text(sc, version)] for p, sc, _ in h],
-                                outcomes='as fresh instance'))
+        if len(samples) < 1 and len(h) == 3 and h[0][2] == 'err' and h[1][2] == 'value' and h[0][0] != h[2][0] \
+                and VERSIONS.index(version) == len(h[2][1]) % 4:
+            samples.append(dict(version=version, history=[dict(instance=p, source_class=sc, text=source_text(sc, version),
+                                                               spec_outcome=k) for p, sc, k in h],
+                                observed='each outcome and tree/code equal to a fresh instance, cursor reset'))
     return dict(stats), list(fails.values()), traces, samples
 
 
@@ -638,6 +642,7 @@ def run(chk: core.Check) -> None:
 
     all_fails: dict = {}
     stats = collections.Counter()
+    nontrivial: set = set()
 
     # ---- 1. Tokens: laws, oracle sets, alphabet, apply vectors -------------------------
     wd = os.path.join(chk.scratch, 'tokens')
@@ -695,7 +700,7 @@ def run(chk: core.Check) -> None:
         for (st, fails, nontriv, samples), gram, gram_bad in results:
             stats.update(st)
             merge_fails(all_fails, fails)
-            chk.add('distinct_nontrivial', nontriv)
+            nontrivial |= nontriv
             gram_total.update(gram)
             gram_bad_all += gram_bad
             for s in samples[:1]:
@@ -879,7 +884,7 @@ def run(chk: core.Check) -> None:
                                                      initializer=_winit, initargs=initargs):
         stats.update(st)
         merge_fails(all_fails, fails)
-        chk.add('distinct_nontrivial', nontriv)
+        nontrivial |= nontriv
         for s in samples[:1]:
             chk.sample(s, cap=10)
     chk.add('transitions', n_mut)
@@ -945,6 +950,7 @@ def run(chk: core.Check) -> None:
     # ---- 7. verdicts and bookkeeping ------------------------------------------------------
     for key in sorted(all_fails):
         report(chk, all_fails[key])
+    chk.add('distinct_nontrivial', len(nontrivial))
     chk.add('evaluations', stats.get('evaluations', 0))
     chk.coverage['outcome_counts'] = {k: v for k, v in sorted(stats.items()) if k != 'evaluations'}
     chk.coverage['exhaustive'] = True
